@@ -613,8 +613,28 @@ func runCheck(prop, tier string) int {
 		for _, n := range nondet {
 			fmt.Fprintln(os.Stderr, "NONDETERMINISTIC:", n)
 		}
-		fmt.Fprintln(os.Stderr, "HARNESS-ERROR: nondeterministic executions; this is a broken check, not an alarm")
-		return 2
+		// Candidates that did not reproduce are never reported as violations. If the same run also holds
+		// confirmed violations (deterministic, or intermittent with a recurring cause) those are reported:
+		// they were reproduced on the implementation; the run is then an alarm, not a broken check.
+		confirmed := 0
+		for _, v := range viols {
+			ok := v.Key != ""
+			if ok {
+				for _, part := range strings.Split(v.Key, "+") {
+					if _, k := known.match(prop, part); !k {
+						ok = false
+					}
+				}
+			}
+			if !ok {
+				confirmed++
+			}
+		}
+		if confirmed == 0 {
+			fmt.Fprintln(os.Stderr, "HARNESS-ERROR: nondeterministic executions; this is a broken check, not an alarm")
+			return 2
+		}
+		fmt.Fprintf(os.Stderr, "note: %d candidate(s) above did not reproduce and are not reported; %d confirmed violation(s) follow\n", len(nondet), confirmed)
 	}
 	sort.Slice(viols, func(i, j int) bool { return viols[i].Case < viols[j].Case })
 
